@@ -165,7 +165,8 @@ class P:
                                            " ".join("%s %s" % (hx(a), hx(p)) for a, p in dgrams))
         self.cj[line] = {"cmd": "pipeline", "proto": proto, "workers": workers, "udpsize": udpsize, "mirror": (force_mirror or rng.random() < 0.3) and proto in ("ipfix", "sflow"),
                          "ext_elements": [[pen, eid, ty] for (pen, eid), (fid, ty) in sorted(TEST_EXT.items())],
-                         "pre": [[a.hex(), p.hex()] for a, p in pre], "dgrams": [[a.hex(), p.hex()] for a, p in dgrams], "filter": filt}
+                         "pre": [[a.hex(), p.hex()] for a, p in pre], "dgrams": [[a.hex(), p.hex()] for a, p in dgrams], "filter": filt,
+                         "procs": 1 if workers == 1 else 0}    # one worker on one P: a buffer Put into the pool is the next one the receive loop Gets
         self.nworkers[line] = workers
         return line
 
